@@ -170,6 +170,29 @@ Section Speed.
     destruct (completes (tw_start tw) D 0 l); [exact C|]. destruct C as [_ C]. apply C. exact Hl.
   Qed.
 
+  (** A speed tween measured in audio time keeps running while the clock itself is frozen: given to a
+      clock that is not ticking, for every list of updates the clock's time stays where it was AND the
+      speed follows the same law as on a running clock (so a clock started after the tween's end runs at
+      the target speed from its first update). *)
+  Lemma speed_tween_runs_while_paused_lemma (c c' : clockQ) (tg : cspeed Q) (tw : tween Q) (l : list (Q * info Q)) :
+    c_ticking c = false ->
+    not_delayed (tw_start tw) -> (tw_dur tw <> 0)%Z -> l <> [] ->
+    let c0 := clock_on_start c {| k_speed := Some (Fixed tg, tw); k_ticking := None; k_reset := false |} in
+    clock_run powf c0 l = Ok c' ->
+    let D := ns_to_secs_Q (tw_dur tw) in
+    c_state c' = c_state c /\ c_ticking c' = false /\
+    if completes (tw_start tw) D 0 l
+    then p_state (c_speed c') = Idle (Fixed tg) /\ p_raw (c_speed c') = tg
+    else p_raw (c_speed c') =
+         cspeed_interpolate (p_raw (c_speed c)) tg (ease powf (tw_easing tw) (ndiv (elapsed (tw_start tw) 0 l) D)).
+  Proof.
+    intros Ht Hnd Hdur Hl c0 R D.
+    assert (Ht0 : c_ticking c0 = false) by exact Ht.
+    destruct (paused_frozen_run powf l c0 c' Ht0 R) as [F1 F2].
+    split; [exact F1|]. split; [exact F2|].
+    exact (speed_change_when_due_lemma c c' tg tw l Hnd Hdur Hl R).
+  Qed.
+
   (** ** F17: the clock's own id resolves to the dummy while the clock is updated *)
   Lemma nth_error_set_nth_ge {A} (k : nat) (x : A) (l : list A) : (length l <= k)%nat -> nth_error (set_nth k x l) k = None.
   Proof. intro H. apply nth_error_None. rewrite set_nth_length. exact H. Qed.
